@@ -334,7 +334,12 @@ class Oracle:
             a, b = self.asks.get(aid), self.bids.get(bid_)
             if a is None or not isinstance(b, fmt.Bid):
                 return [(None, "match accepted for an order that is not on the book")]
-            p, ap, bp = parse_dec(fmt.dec(ev.args[2])), parse_dec(a.price), parse_dec(b.price)
+            def judged(text):
+                # beyond 28 digits / 96 bits the implementation's parser rounds; that reading is the model's business
+                # (Dec.dec_parse, compared case by case), not this oracle's
+                digits = text.replace("_", "").lstrip("+-").replace(".", "")
+                return parse_dec(text) if len(digits) <= 28 and int(digits or "0") < 2 ** 96 else None
+            p, ap, bp = judged(fmt.dec(ev.args[2])), judged(a.price), judged(b.price)
             if self.cfg is not None and ev.sender not in self.cfg.executors:
                 out.append((None, "match by a non-executor"))
             if ev.funds:
